@@ -138,6 +138,9 @@ pub fn panic_to_error(
     } else {
         "Unknown panic".to_string()
     };
+    // The panic may have happened while the thread's context was locked (while unpacking the
+    // arguments): the lock is then poisoned, although the stack it guards was only read
+    thread.clear_context_poison();
     let mut context = thread.current_context();
     let mut context = context.context();
     let msg = context.gc.alloc_ignore_limit(msg.as_str());
